@@ -82,6 +82,10 @@ CHECKS = {
             "All ordered pairs of a 15-degree (thorough 5-degree) lon/lat lattice, 8 neighbours at 1e-6 degree of every lattice point and cross-antimeridian partners, in Haversine, Geodesic, Rhumb and custom sphere / ellipsoid measures: round trip destination(a, bearing(a,b), distance(a,b)) within 1 mm of b, symmetry within 1 um, non-negativity, zero for identical points, point_at_ratio_between divides the distance, line-string length equals the segment sum, bearings in [0,360), outputs within lon/lat range; destination for bearings incl. negative and >360 and distances incl. 0 and negative: periodicity, sign symmetry and travelled distance.",
             "Weakest claim of the set: identities on a lattice say nothing between lattice points; pairs within ~2% of antipodal are excluded from the round-trip clause as the property allows. Measured worst deviations (<= 3e-8 m) are in the evidence. GeodesicMeasure::new's second parameter is named inverse_flattening but is used as the flattening f; the check passes f.",
             "DESIGN.md §4 C16"),
+    "C13": ("E1-grid", "bounded exhaustive enumeration of integer affine matrices (pairs, triples), constructor parameters, and (similarity map x geometry pair) tuples; exact algebraic oracle and metamorphic commutation",
+            "All ordered pairs of integer affine matrices (729 quick / 5625 thorough) on all lattice coordinates in f64 and i64: composition law, compose_many, inverse None iff singular and undoing the map; rotate/scale/skew/translate constructors and all Rotate/Scale/Skew/Translate trait methods incl. _mut and around centroid / bounding-box centre / point against the documented matrix; the 48 exact similarity maps D4 x {0,(7,-3)} x {1/2,1,2} applied to every ordered pair of a lattice shape family: relate, intersects/contains/within, is_valid unchanged, area x s^2 (sign flips under reflection), length/distance x s, centroid, bounding rect and hull vertex set equivariant, winding flips exactly under reflections.",
+            "inverse for integer matrices only checked where the inverse is integral; Rect/Triangle are excluded from coordinate-wise constructor comparisons where map_coords re-normalises them.",
+            "DESIGN.md §4 C13"),
 }
 
 NOT_YET = "check not built yet in this round (planned: bounded exhaustive exploration, see DESIGN.md §4)"
